@@ -553,7 +553,8 @@ func forgeWithDisclosed(w *world.World, rng *rand.Rand) {
 			d2, _ := ref.ParseData(append([]byte{}, h.Body...))
 			d2.Enc = append([]byte{}, d.Enc...)
 			d2.Enc[rng.Intn(len(d2.Enc))] ^= 0x20
-			binary.BigEndian.PutUint64(d2.Ctr[:], binary.BigEndian.Uint64(d2.Ctr[:])+1)
+			// a counter beyond anything the genuine sender has used under this key pair
+			binary.BigEndian.PutUint64(d2.Ctr[:], binary.BigEndian.Uint64(d2.Ctr[:])+1000)
 			d2.MAC = ref.HMAC1(k, h.HdrBytes, d2.Unsigned())
 			forged := ref.Armor(append(append([]byte{}, h.HdrBytes...), d2.Bytes()...))
 			w.ReceiveAttack(w.P[m.To], [][]byte{forged}, "forged-with-disclosed-key")
